@@ -32,17 +32,18 @@ ALLOW = {"offd": F.ALL_DISCRETE_OFFLINE - {"fn"}, "ond": F.PAST_ONLY - {"fn"},
 REGIONS = {}
 
 
-def run_impl(mon, text, vs, data, n, sem, io):
+def run_impl(mon, text, vs, data, n, sem, io, struct=()):
     def go():
-        spec = impl.make_spec("bothd", text, vs, semantics=SEMS[sem], io=io)
+        from ..msgs import Msg
+        spec = impl.make_spec("bothd", impl.struct_text(text, struct), vs, semantics=SEMS[sem], io=io, struct=struct)
         spec.parse()
         if mon == "offd":
             ds = {"time": list(range(n))}
-            ds.update({v: list(data[v]) for v in vs})
+            ds.update({v: impl.wrap(data[v], v in struct) for v in vs})
             return [p[1] for p in spec.evaluate(ds)]
         if mon == "past":
             spec.pastify()
-        return [spec.update(i, [(v, data[v][i]) for v in vs]) for i in range(n)]
+        return [spec.update(i, [(v, Msg(data[v][i]) if v in struct else data[v][i]) for v in vs]) for i in range(n)]
     return impl.guarded(go)
 
 
@@ -54,7 +55,9 @@ def gen_case(rng):
     io = {v: rng.choice(["input", "output"]) for v in vs if rng.random() < 0.8}
     sem = rng.choice(list(SEMS))
     n = rng.randint(1, 10)
-    return {"monitor": mon, "f": f, "vars": vs, "io": io, "sem": sem, "n": n, "data": F.gen_trace(rng, vs, n)}
+    # some variables are objects of a user-defined type, read through a field (`a.value`)
+    struct = sorted(v for v in vs if rng.random() < 0.5) if rng.random() < 0.3 else []
+    return {"monitor": mon, "f": f, "vars": vs, "io": io, "sem": sem, "n": n, "data": F.gen_trace(rng, vs, n), "struct": struct}
 
 
 def model(cases):
@@ -80,13 +83,16 @@ def model(cases):
 def check_case(ctx, case, m):
     f, mon, n, data, vs = case["f"], case["monitor"], case["n"], case["data"], case["vars"]
     text = "out = " + F.to_text(f)
-    out = run_impl(mon, text, vs, data, n, case["sem"], case["io"])
-    rep = {"monitor": mon, "semantics": case["sem"], "io": case["io"], "spec": text, "formula": F.to_proto(f), "data": data, "n": n,
+    struct = case.get("struct") or []
+    if struct:
+        ctx.count("struct-typed variables")
+    out = run_impl(mon, text, vs, data, n, case["sem"], case["io"], struct)
+    rep = {"struct": struct, "monitor": mon, "semantics": case["sem"], "io": case["io"], "spec": text, "formula": F.to_proto(f), "data": data, "n": n,
            "transformed": F.to_proto(case["tf"]), "impl": out, "model": m}
     if out[0] != "ok":
         return Violation("%s monitor, %s semantics, io=%r raised %r: %s" % (mon, case["sem"], case["io"], out[1:], text), rep, stream="ia"), None
     vals = out[1]
-    std = run_impl(mon, text, vs, data, n, "standard", {})
+    std = run_impl(mon, text, vs, data, n, "standard", {}, struct)
     ctx.evaluations += 1
     if std[0] == "ok" and (disc.nontrivial(vals) or not same_vals(vals, std[1])):
         ctx.nontrivial.add((mon, case["sem"], tuple(sorted(case["io"].items())), text, tuple((k, tuple(v)) for k, v in sorted(data.items()))))
@@ -142,7 +148,7 @@ def replay(ctx, obj):
         return dense.replay_ia(ctx, obj)
     f = F.from_proto(obj["formula"])
     c = {"monitor": obj["monitor"], "f": f, "vars": F.variables(f) or ["a"], "io": obj["io"], "sem": obj["semantics"], "n": obj["n"],
-         "data": {k: [float(x) for x in v] for k, v in obj["data"].items()}}
+         "data": {k: [float(x) for x in v] for k, v in obj["data"].items()}, "struct": obj.get("struct") or []}
     m, = model([c])
     v, d = check_case(Ctx(ctx.id, ctx.tier, ctx.seed), c, m)
     return (v is None), (v.what if v else "IA result agrees with the model on the replayed case")
